@@ -3,6 +3,7 @@ package main
 
 import (
 	"os"
+	"strconv"
 
 	"verif/fw"
 	"verif/props"
@@ -11,6 +12,10 @@ import (
 func main() {
 	if len(os.Args) >= 4 && os.Args[1] == "c13helper" {
 		os.Exit(props.C13Helper(os.Args[2], os.Args[3] == "on"))
+	}
+	if len(os.Args) >= 3 && os.Args[1] == "c05helper" {
+		i, _ := strconv.Atoi(os.Args[2])
+		os.Exit(props.C05Helper(i))
 	}
 	os.Exit(fw.Main(os.Args[1:]))
 }
